@@ -217,7 +217,7 @@ def classify(loc: str, base: W.Result, prefix: str) -> tuple[str, str]:
     if r.kind == "failure":
         return "ok", "no-navigation"
     if r.kind in ("nonspecial", "file"):
-        return "bad", "scheme:" + (r.scheme or r.kind)
+        return "bad", "non-http-scheme"
     if r.kind == "unclassified":
         return "unknown", "unclassified-host"
     if r.origin == ("http", SVC_HOST, 80):
@@ -226,7 +226,7 @@ def classify(loc: str, base: W.Result, prefix: str) -> tuple[str, str]:
             return "ok", "same-origin"
         return "minor", "outside-prefix"
     if r.scheme not in ("http", "https"):
-        return "bad", "scheme:" + r.scheme
+        return "bad", "non-http-scheme"
     if W.is_loopback_host(r.host):
         return "ok", "loopback"
     if r.origin in ALLOWED:
